@@ -15,7 +15,7 @@ run_demo() {
     cargo test --offline --test "$name" > /tmp/confirm_demo.out 2>&1; local rc=$?
     rm -rf tests; return $rc
   elif ls "$SD"/demo/*.sh > /dev/null 2>&1; then
-    local sh; sh=$(ls "$SD"/demo/run*.sh | head -1)
+    local sh; sh=$(ls "$SD"/demo/run*.sh "$SD"/demo/demo*.sh "$SD"/demo/*.sh 2>/dev/null | head -1)
     bash "$sh" "$WT" > /tmp/confirm_demo.out 2>&1; return $?
   else
     echo "no demo found"; return 99
